@@ -504,3 +504,44 @@ func ZZ_C11_write_literals() {
 	zz.Cover("literal:form-post", posted)
 	zz.Cover("literal:location", !posted)
 }
+
+// ZZ_C11_match_folded: the requested redirect_uri differs from the single registered https URI only in
+// something url.Parse folds away - user info before the host, a needlessly escaped path character, a trailing
+// empty fragment or empty query. The parsed components are EQUAL (declared so to the engine and checked against
+// net/url on every replay), the strings are not: the request is refused, by the matcher and by the validation
+// step of the authorization endpoint.
+func ZZ_C11_match_folded() {
+	reg := zzNewURI("reg", zzURIOpt{SchemeKinds: 1, HostKinds: 1, HostLen: 12, KvQuery: true, NoFrag: true, HostNonEmpty: true})
+	zz.Assume(reg.Scheme == "https")
+	tail := zz.IteStr(reg.Query == "", "", "?"+reg.Query)
+	var raw string
+	switch zz.Choice("folded", 4) {
+	case 0: // user info
+		ui := zz.StringEx("userinfo", 6, zzAllBut(zzuri.Lower))
+		zz.Assume(ui != "")
+		raw = "https://" + ui + "@" + reg.Host + reg.Path + tail
+		zz.Cover("folded:userinfo", true)
+	case 1: // "%63" for "c"
+		zz.Assume(strings.HasPrefix(reg.Path, "/c"))
+		raw = "https://" + reg.Host + "/%63" + reg.Path[2:] + tail
+		zz.Cover("folded:escaped-path-character", true)
+	case 2: // trailing empty fragment
+		raw = reg.Raw + "#"
+		zz.Cover("folded:empty-fragment", true)
+	case 3: // trailing empty query
+		zz.Assume(reg.Query == "")
+		raw = reg.Raw + "?"
+		zz.Cover("folded:empty-query", true)
+	}
+	zz.DeclareURLFolded(raw, reg.Scheme, reg.HostLit, reg.PortPart, reg.Path, reg.Query, "")
+	client := &DefaultClient{ID: "c", RedirectURIs: []string{reg.Raw}}
+	u, err := MatchRedirectURIWithClientRedirectURIs(raw, client)
+	zz.Observe("matched", err == nil)
+	zz.Assert(err != nil && u == nil, "folded: a redirect_uri that only PARSES like the registered one is refused by the matcher")
+	ar := NewAuthorizeRequest()
+	ar.Client = client
+	ar.Form = url.Values{"redirect_uri": {raw}}
+	f := zzC11Fosite()
+	zz.Assert(f.validateAuthorizeRedirectURI(nil, ar) != nil, "folded: ... and by the validation step of the authorization endpoint")
+	zz.Assert(raw != reg.Raw, "folded: (sanity) the texts differ")
+}
